@@ -319,10 +319,22 @@ def monitor_transitions(w: World) -> tuple[str, Any] | None:
     """C06: every durable status change is in the published table; completed is final except for
     the explicit re-arm done while a JumpToStage / RestartStage message is being handled."""
     table = _valid_transitions()
+    last: dict[tuple[str, str], str] = {}
     for row in w.audit():
         if row["tbl"] == "cancel":
             continue
         old, new, ctx = row["old"], row["new"], row["ctx"] or ""
+        kind = row["tbl"].replace("_ins", "")
+        if row["tbl"].endswith("_ins"):
+            # a row (re)written by INSERT [OR REPLACE]: a status change if the entity existed before
+            prev = last.get((kind, row["id"]))
+            last[(kind, row["id"])] = new
+            if prev is None or prev == new:
+                continue
+            old = prev
+            row = {**row, "tbl": kind, "old": prev, "note": "row replaced by an INSERT"}
+        else:
+            last[(kind, row["id"])] = new
         if old == new:
             continue
         if new in table.get(old, set()):
